@@ -604,6 +604,27 @@ Qed.
 Theorem sort_keys_canonical v : canonical v -> sort_keys v = v.
 Proof. apply (sort_keys_canonical_sized (size v)). lia. Qed.
 
+(* the key sort invents no member *)
+Lemma ins_keys k v : forall l x, In x (map fst (ins k v l)) -> x = k \/ In x (map fst l).
+Proof.
+  induction l as [|[k' v'] r IH]; intros x H; cbn [ins] in H.
+  - cbn in H. destruct H as [<-|[]]. left. reflexivity.
+  - destruct (str_ltb k k'); [cbn [map fst In] in *; destruct H as [<-|H]; [left; reflexivity|right; exact H]|].
+    destruct (str_ltb k' k); cbn [map fst In] in *.
+    + destruct H as [<-|H]; [right; left; reflexivity|]. apply IH in H as [->|H]; [left; reflexivity|right; right; exact H].
+    + destruct H as [<-|H]; [left; reflexivity|right; right; exact H].
+Qed.
+Lemma go_keys : forall l acc x, In x (map fst (go l acc)) -> In x (map fst l) \/ In x (map fst acc).
+Proof.
+  induction l as [|[k v] r IH]; intros acc x H; cbn [go] in H; [right; exact H|].
+  apply IH in H as [H|H]; [left; right; exact H|]. apply ins_keys in H as [->|H]; [left; left; reflexivity|right; exact H].
+Qed.
+Lemma has_key_in k : forall l, In k (map fst l) -> has_key k l = true.
+Proof.
+  unfold has_key. induction l as [|[k' v] r IH]; intros H; [contradiction|]. cbn [map fst In existsb] in *.
+  destruct H as [->|H]; [rewrite seqb_refl; reflexivity|]. rewrite (IH H). apply orb_true_r.
+Qed.
+
 (* ---------- the decidable condition on the translated configuration ---------- *)
 Fixpoint nodupb (l : list str) : bool := match l with [] => true | k :: r => negb (existsb (seqb k) r) && nodupb r end.
 Definition json_cfg_goodb (cfg : json_cfg) : bool :=
@@ -611,7 +632,8 @@ Definition json_cfg_goodb (cfg : json_cfg) : bool :=
   && nodupb (map fst (builtins cfg)) && forallb unitsb (map fst (builtins cfg))
   && custom_overlay cfg && flag_true_is_compact cfg
   && forallb (fun t => seqb (type_name cfg t) (spec_type_name t)) [0; 1; 2; 3; 4]
-  && forallb (fun kf => negb (bfield_code (snd kf) =? bfield_code BFormatted)) (builtins cfg).
+  && forallb (fun kf => negb (bfield_code (snd kf) =? bfield_code BFormatted)) (builtins cfg)
+  && forallb (fun kf => is_spec_name (fst kf)) (builtins cfg).
 
 Lemma nodupb_NoDup l : nodupb l = true -> NoDup l.
 Proof.
@@ -631,10 +653,11 @@ Record cfg_good (cfg : json_cfg) : Prop := {
   g_overlay : custom_overlay cfg = true;
   g_flag : flag_true_is_compact cfg = true;
   g_types : forall t, t < 5 -> type_name cfg t = spec_type_name t;
-  g_nofmt : forall k, ~ In (k, BFormatted) (builtins cfg) }.
+  g_nofmt : forall k, ~ In (k, BFormatted) (builtins cfg);
+  g_only : forall k, In k (map fst (builtins cfg)) -> is_spec_name k = true }.
 Lemma cfg_goodb_good cfg : json_cfg_goodb cfg = true -> cfg_good cfg.
 Proof.
-  unfold json_cfg_goodb. intros H.
+  unfold json_cfg_goodb. intros H. apply andb_prop in H as [H Hon].
   apply andb_prop in H as [H Hnf]. apply andb_prop in H as [H Hty]. apply andb_prop in H as [H Hfl].
   apply andb_prop in H as [H Hov]. apply andb_prop in H as [H Hun]. apply andb_prop in H as [Hsp Hnd].
   constructor.
@@ -648,6 +671,7 @@ Proof.
     assert (Hc : In t (map N.of_nat (seq 0 5))) by (apply in_map_iff; exists (N.to_nat t); split; [apply N2Nat.id|apply in_seq; lia]).
     exact Hc.
   - intros k Hin. rewrite forallb_forall in Hnf. apply Hnf in Hin. cbn in Hin. discriminate.
+  - intros k Hin. apply in_map_iff in Hin as ([k' f] & <- & Hin). rewrite forallb_forall in Hon. apply (Hon _ Hin).
 Qed.
 
 (* ---------- well-formed messages ---------- *)
@@ -744,6 +768,20 @@ Proof.
   - rewrite (Hb k_category BCategory) by (cbn; tauto || exact Hk). cbn [field_value]. rewrite E. reflexivity.
 Qed.
 
+(* nothing else: every member of the record is a built-in field or an attribute of this message *)
+Theorem nothing_else m k : In k (map fst (members_of m)) -> is_spec_name k = true \/ has_key k (mattrs m) = true.
+Proof.
+  unfold members_of. intros H. apply go_keys in H as [H|[]]. rewrite map_app in H. apply in_app_or in H as [H|H].
+  - left. apply (g_only cfg Gp). rewrite map_map in H. exact H.
+  - right. apply has_key_in, H.
+Qed.
+Theorem record_has_nothing_else flag m : wf_msg m ->
+  exists kv, parse_doc (json_format cfg flag m) = Some (JObj kv)
+    /\ forall k, In k (map fst kv) -> is_spec_name k = true \/ has_key k (mattrs m) = true.
+Proof.
+  intros Hm. exists (members_of m). split; [rewrite format_roundtrip by exact Hm; rewrite sorted_is_members; reflexivity|apply nothing_else].
+Qed.
+
 (* compact mode: no character below U+0020 anywhere in the record, hence no LF and no CR *)
 Theorem compact_record_one_line m : ge32 (json_format cfg true m).
 Proof. unfold json_format, mode_of. rewrite (g_flag cfg Gp). apply compact_no_control. Qed.
@@ -759,12 +797,14 @@ Qed.
 Theorem oracle_holds flag m : wf_msg m -> prop_c13_b flag m (json_format cfg flag m) = true.
 Proof.
   intros Hm. unfold prop_c13_b. rewrite format_roundtrip by exact Hm. rewrite sorted_is_members.
-  apply andb_true_intro. split; [apply andb_true_intro; split|].
+  apply andb_true_intro. split; [apply andb_true_intro; split; [apply andb_true_intro; split|]|].
   - unfold fields_ok. apply forallb_forall. intros [k f] Hin. cbn [fst snd].
     destruct (has_key k (mattrs m)) eqn:Hk; [reflexivity|].
     rewrite (builtin_recovered m k f (proj1 Hm) Hin Hk). apply json_eqb_refl.
   - apply (customs_ok_suffix m (mattrs m) []). reflexivity.
   - destruct flag; [|reflexivity]. apply no_line_break_ge32, compact_record_one_line.
+  - unfold only_known. apply forallb_forall. intros [k v] Hin. cbn [fst]. apply orb_true_iff.
+    apply nothing_else. apply in_map_iff. exists (k, v). split; [reflexivity|exact Hin].
 Qed.
 End Good.
 
